@@ -707,6 +707,14 @@ func (ex *Exec) specCall(env *Env, e *ECall) *Value {
 		// str(b): the string holding the current contents of byte slice b
 		b := arg(0)
 		return &Value{T: types.Typ[types.String], C: []*Term{ex.backingArrayRaw(env.st, b, 0), b.C[1], b.C[2]}}
+	case "haskeyid":
+		// haskeyid(m, k): presence of the key with abstract identity k (for quantifying over all keys)
+		m := arg(0)
+		key, _ := ex.mapRootKey(m)
+		pc := env.st.pc
+		has := tb.Select(tb.Select(ex.heapMap(env.st, key, 0, ArrOf(SBool)), m.C[0]), arg(1).C[0])
+		env.st.pc = pc
+		return ex.boolV(tb.And(has, tb.Ne(m.C[0], ex.refLit(0))))
 	case "unbox":
 		x := arg(0)
 		if x.I != nil {
@@ -814,6 +822,10 @@ func (ex *Exec) specCall(env *Env, e *ECall) *Value {
 			l := ex.L.Of(types.Typ[types.String])
 			v := &Value{T: types.Typ[types.String], C: make([]*Term, 3)}
 			for k, c := range l.Comps {
+				if c.Kind == kStrOff {
+					v.C[k] = ex.zeroOfSort(c.Sort)
+					continue
+				}
 				n := fmt.Sprintf("%s$%d", uf.Name, k)
 				tb.DeclareUF(n, sorts, c.Sort)
 				v.C[k] = tb.App(n, c.Sort, as...)
@@ -828,7 +840,11 @@ func (ex *Exec) specCall(env *Env, e *ECall) *Value {
 		return ex.specInt(r)
 	}
 	// functional extern used as a spec function
-	if c := ex.prog.externFor(e.Fun); c != nil && c.Functional && c.Fn != nil {
+	fc := ex.prog.externFor(e.Fun)
+	if fc == nil {
+		fc = ex.prog.contractByName(e.Fun)
+	}
+	if c := fc; c != nil && c.Functional && c.Fn != nil {
 		var args []*Value
 		for i := range e.Args {
 			args = append(args, arg(i))
